@@ -136,6 +136,14 @@ def run_case(seed):
     pf = gen.gen_plotfile(rng, ndims=3, max_blocks=2, nfields=(2, 5), nlevels=rng.choice([1, 2, 2, 3]),
                           payload=rng.choice(['ints', 'random', 'smallints']))
     pf.fields = [f.replace(' ', '_') for f in pf.fields]
+    rm = random.Random(seed * 3571 + 19)
+    if rm.random() < 0.25:
+        gen.mixed_digit_files(pf, rm)
+    count(f"binary file numbers={pf.meta.get('file_numbers', 'five digits')}")
+    if rm.random() < 0.2:
+        # a slab: every box is one cell thick at level 0 (2 at level 1 ...) in one direction
+        gen.flatten_axis(pf, rm.randrange(3))
+    count(f"slab one cell thick={'slab_axis' in pf.meta}")
     keys = c01.reader_keys(pf.fields)
     fidx = {k: i for i, k in enumerate(keys)}
     img = diskimg.image_of(pf)
